@@ -501,6 +501,15 @@ func (b *stepBuilder) buildStep(
 		}
 	}
 
+	// A step must end up with something to execute: a command, a sub
+	// workflow, or an executor other than the default command executor.
+	if step.Command == "" && step.CmdWithArgs == "" &&
+		step.SubWorkflow == nil &&
+		(step.ExecutorConfig.Type == "" ||
+			step.ExecutorConfig.Type == "command") {
+		return nil, errStepCommandIsEmpty
+	}
+
 	return step, nil
 }
 
